@@ -143,7 +143,10 @@ def evaluate(ad, spec, with_grad, no_grad_ctx=False, strided=False, keep=None):
         args = [a.requires_grad_(True) for a in args]
     try:
         if no_grad_ctx:
-            with torch.no_grad():
+            # autograd not recording, in each of the three ways a caller can arrange that
+            ctx = {'inference_mode': torch.inference_mode, 'set_grad_enabled': lambda: torch.set_grad_enabled(False)}.get(
+                no_grad_ctx, torch.no_grad)
+            with ctx():
                 outs = ad.apply(args)
         else:
             outs = ad.apply(args)
@@ -331,7 +334,8 @@ def hist_main(specfile, cfgjson, out):
             else:
                 spec = specs[rnd.randrange(len(specs))] if rnd.random() < 0.85 else specs[rnd.randrange(min(12, len(specs)))]
             with_grad = rnd.random() < (0.0 if burst else 0.3)
-            nograd_ctx = (not with_grad) and rnd.random() < 0.25          # the same call inside torch.no_grad()
+            nograd_ctx = (not with_grad) and rnd.random() < 0.3 and \
+                rnd.choice(['no_grad', 'no_grad', 'inference_mode', 'set_grad_enabled'])   # autograd not recording
             strided = (not burst) and rnd.random() < 0.15                  # same values, non-contiguous arguments
             fresh = rnd.random() < (0.0 if burst else 0.05 if hot else 0.2)
             fault = cfg.get('faults') and rnd.random() < 0.08
